@@ -63,3 +63,15 @@ Example closure_example : closure 5 [[(1, [2; 3])]; [(3, [4])]; [(9, [1])]] [9] 
 Proof. vm_compute. reflexivity. Qed.
 Example classdef_example : classdef_subset [(1, 3); (2, 5); (3, 3); (4, 7)] [1; 3; 4] true = ([(1, 0); (3, 0); (4, 1)], [3; 7]).
 Proof. vm_compute. reflexivity. Qed.
+
+(* ---- ligature substitution subtables (ModelLig.v: LigatureSubst.subset_glyphs and the reference meaning of the subtable, tied to
+   HarfBuzz by correspondence): on a retained set closed under the subtable -- which closure_gsub_closed provides -- every text over
+   retained glyphs is shaped by the subset subtable exactly as by the original, earlier ligatures still winning over later ones,
+   and the result never leaves the subset *)
+From FV Require C07.ModelLig C07.ProofsLig.
+Theorem subset_lig_preserves_shaping : forall l keep s,
+  ProofsLig.lig_closed l keep -> Forall (fun x => In x keep) s ->
+  ModelLig.shape_lig (ModelLig.subset_lig l keep) s = ModelLig.shape_lig l s /\
+  Forall (fun x => In x keep) (ModelLig.shape_lig l s).
+Proof. exact ProofsLig.subset_lig_preserves_shaping. Qed.
+Print Assumptions subset_lig_preserves_shaping.
